@@ -7,7 +7,8 @@ C20 — model of `fdtdx/objects/device/parameters/projection.py`:
   grad0 / grad1       : `jnp.gradient` of a 2-D array with unit spacing (central differences inside,
                         one-sided differences on the two edge rows / columns; needs >= 2 entries per axis).
   smoothedCell        : the element-wise part of `smoothed_projection` (fill factor polynomial, the
-                        `needs_smoothing` mask, the two effective projections, the final `where`).
+                        `needs_smoothing` mask incl. the `norm_floor` guard of the repaired tree, the two
+                        effective projections, the final `where`).
   smoothedProjection  : `smoothed_projection(rho, beta, eta, resolution)` on an `n x m` array.
   resolveAxes         : the glue of `SubpixelSmoothedProjection.__call__`: first axis of size 1 is the
                         vertical one, the voxel sizes of the two remaining axes must agree.
@@ -64,16 +65,17 @@ def grad1 (two : α) (m : Nat) (rho : Nat → Nat → α) (i j : Nat) : α :=
 /-- `rho_filtered_grad_helper` -/
 def gradHelper (dx g0 g1 : α) : α := (g0 / dx) * (g0 / dx) + (g1 / dx) * (g1 / dx)
 
-/-- `nonzero_norm = abs(helper) > 0` -/
-def nonzeroNorm (abs : α → α) (h : α) : Bool := decide (0 < abs h)
+/-- `nonzero_norm = abs(helper) > norm_floor`, `norm_floor = finfo(dtype).tiny * 2**20` (a parameter here:
+any number ≥ 0 in the theorems, the binary64 value in the driver) -/
+def nonzeroNorm (abs : α → α) (floor h : α) : Bool := decide (floor < abs h)
 
 /-- `rho_filtered_grad_norm_eff` -/
-def normEff (abs sqrt : α → α) (h : α) : α :=
-  if nonzeroNorm abs h then sqrt (if nonzeroNorm abs h then h else 1) else 1
+def normEff (abs sqrt : α → α) (floor h : α) : α :=
+  if nonzeroNorm abs floor h then sqrt (if nonzeroNorm abs floor h then h else 1) else 1
 
 /-- `needs_smoothing` -/
-def needsSmoothing (abs sqrt : α → α) (R eta rho h : α) : Bool :=
-  nonzeroNorm abs h && decide (abs ((eta - rho) / normEff abs sqrt h) < R)
+def needsSmoothing (abs sqrt : α → α) (floor R eta rho h : α) : Bool :=
+  nonzeroNorm abs floor h && decide (abs ((eta - rho) / normEff abs sqrt floor h) < R)
 
 /-- fill factor `F` (sign = +1) and `F_minus` (sign = -1) for an already safe `d/R` -/
 def fillPlus (cast : Nat → α) (s : α) : α :=
@@ -85,12 +87,12 @@ def fillMinus (cast : Nat → α) (s : α) : α :=
 /-- everything of `smoothed_projection` that happens in one cell, given the cell value `rho`, the
 two gradient components, `dx = 1/resolution` and `R = 0.55*dx` -/
 def smoothedCell (tanh sqrt abs : α → α) (isInf isZero : α → Bool) (cast : Nat → α)
-    (beta eta dx R rho g0 g1 : α) : α :=
+    (floor beta eta dx R rho g0 g1 : α) : α :=
   let proj := tanhProjection tanh isInf isZero beta eta
   let h := gradHelper dx g0 g1
-  let ne := normEff abs sqrt h
+  let ne := normEff abs sqrt floor h
   let d := (eta - rho) / ne
-  let needs := needsSmoothing abs sqrt R eta rho h
+  let needs := needsSmoothing abs sqrt floor R eta rho h
   let dR := d / R
   let s := if needs then dR else 0
   let F := if needs then fillPlus cast s else 1
@@ -101,11 +103,11 @@ def smoothedCell (tanh sqrt abs : α → α) (isInf isZero : α → Bool) (cast 
   if needs then smoothed else proj rho
 
 /-- `smoothed_projection(rho, beta, eta, resolution)` at cell `(i, j)` of an `n × m` array -/
-def smoothedProjection (tanh sqrt abs : α → α) (isInf isZero : α → Bool) (cast : Nat → α) (c055 : α)
+def smoothedProjection (tanh sqrt abs : α → α) (isInf isZero : α → Bool) (cast : Nat → α) (c055 floor : α)
     (beta eta resolution : α) (n m : Nat) (rho : Nat → Nat → α) (i j : Nat) : α :=
   let dx := 1 / resolution
   let R := c055 * dx
-  smoothedCell tanh sqrt abs isInf isZero cast beta eta dx R (rho i j)
+  smoothedCell tanh sqrt abs isInf isZero cast floor beta eta dx R (rho i j)
     (grad0 (cast 2) n rho i j) (grad1 (cast 2) m rho i j)
 
 end generic
@@ -128,7 +130,7 @@ def fIsZero (x : Float) : Bool := x == 0
 /-- ops:
   `tanh beta eta x_0 … x_{k-1}`                       → projected values
   `parts beta eta x`                                  → `safe_beta divisor dividend`
-  `smooth n m beta eta resolution c055 v_0 … v_{nm-1}` → smoothed projection (row major), `error` if n<2 or m<2
+  `smooth n m beta eta resolution c055 floor v_0 … v_{nm-1}` → smoothed projection (row major), `error` if n<2 or m<2
   `axes a b c`                                        → `vertical first second` or `error`
 -/
 def handle : List String → String
@@ -143,14 +145,14 @@ def handle : List String → String
       let b := safeBeta Float.isInf fIsZero beta
       showFloats [b, divisor Float.tanh b eta, dividend Float.tanh b eta x]
     | _ => "bad-op"
-  | "smooth" :: n :: m :: beta :: eta :: res :: c :: vs =>
-    match natsOf [n, m], floatsOfHex [beta, eta, res, c], floatsOfHex vs with
-    | some [n, m], some [beta, eta, res, c], some vs =>
+  | "smooth" :: n :: m :: beta :: eta :: res :: c :: fl :: vs =>
+    match natsOf [n, m], floatsOfHex [beta, eta, res, c, fl], floatsOfHex vs with
+    | some [n, m], some [beta, eta, res, c, fl], some vs =>
       if vs.length ≠ n * m then "bad-op" else
       if n < 2 ∨ m < 2 then "error" else
       let arr := vs.toArray
       let rho : Nat → Nat → Float := fun i j => arr.getD (i * m + j) 0.0
-      let f := smoothedProjection Float.tanh Float.sqrt fabs Float.isInf fIsZero Float.ofNat c beta eta res n m rho
+      let f := smoothedProjection Float.tanh Float.sqrt fabs Float.isInf fIsZero Float.ofNat c fl beta eta res n m rho
       showFloats ((List.range n).flatMap (fun i => (List.range m).map (fun j => f i j)))
     | _, _, _ => "bad-op"
   | ["axes", a, b, c] =>
